@@ -84,7 +84,46 @@ struct Run
   typedef MeshPart<MeshType> PartType;
   typedef RootMeshNode<MeshType> NodeType;
 
-  struct PartRef { bool halo; int rank; String name; };
+  struct PartRef { bool halo; int rank; String name; Index nchild; };
+
+  // <m|h> <topo> <targets per dim> [topology] <nattr:0|1> [values] <nchildren>
+  static std::unique_ptr<PartType> read_part(Cur& c, std::string& what, Index& nchild)
+  {
+    what = c.str();
+    Index topo = Index(c.idx());
+    std::vector<std::vector<std::size_t>> t;
+    Index pn[dim + 1];
+    for(int d(0); d <= dim; ++d) { t.push_back(c.idxlist()); pn[d] = Index(t.back().size()); }
+    std::unique_ptr<PartType> part(new PartType(pn, topo != 0));
+    TrgIO<dim>::fill(*part, t);
+    if(topo != 0)
+      IdxIO<Shape_>::read(*part->get_topology(), c);
+    Index na = Index(c.idx());
+    if(na != 0)
+    {
+      std::unique_ptr<typename PartType::AttributeSetType> at(new typename PartType::AttributeSetType(pn[0], 1));
+      for(Index i(0); i < pn[0]; ++i) (*at)(i, 0) = Q::parse(c.str());
+      part->add_attribute(std::move(at), "a");
+    }
+    nchild = Index(c.idx());
+    return part;
+  }
+
+  static void show_part(const PartType* p, std::ostream& o)
+  {
+    if(p == nullptr) { o << " MISSING"; return; }
+    o << (p->has_topology() ? " T" : " S");
+    TrgIO<dim>::write(*p, o, dim);
+    if(p->has_topology())
+      IdxIO<Shape_>::write(*p->get_topology(), o);
+    const auto* at = p->find_attribute("a");
+    if(at == nullptr) o << " A 0";
+    else
+    {
+      o << " A " << at->get_num_values();
+      for(Index i(0); i < at->get_num_values(); ++i) o << " " << Q((*at)(i, 0)).str();
+    }
+  }
 
   static void show_level(const NodeType& node, const std::vector<PartRef>& refs, std::ostream& o)
   {
@@ -115,11 +154,17 @@ struct Run
     for(const auto& r : refs)
     {
       const PartType* p = r.halo ? node.get_halo(r.rank) : node.find_mesh_part(r.name);
-      if(p == nullptr) { o << " MISSING"; continue; }
-      o << (p->has_topology() ? " T" : " S");
-      TrgIO<dim>::write(*p, o, dim);
-      if(p->has_topology())
-        IdxIO<Shape_>::write(*p->get_topology(), o);
+      show_part(p, o);
+      o << " C " << r.nchild;
+      if(!r.halo && r.nchild > 0)
+      {
+        const auto* pnode = node.find_mesh_part_node(r.name);
+        for(Index j(0); j < r.nchild; ++j)
+        {
+          show_part(pnode == nullptr ? nullptr : pnode->find_mesh_part("c" + stringify(j)), o);
+          o << " C 0";
+        }
+      }
     }
   }
 
@@ -138,18 +183,27 @@ struct Run
     std::vector<PartRef> refs;
     for(Index k(0); k < np; ++k)
     {
-      std::string what = c.str();
-      Index topo = Index(c.idx());
-      std::vector<std::vector<std::size_t>> t;
-      Index pn[dim + 1];
-      for(int d(0); d <= dim; ++d) { t.push_back(c.idxlist()); pn[d] = Index(t.back().size()); }
-      std::unique_ptr<PartType> part(new PartType(pn, topo != 0));
-      TrgIO<dim>::fill(*part, t);
-      if(topo != 0)
-        IdxIO<Shape_>::read(*part->get_topology(), c);
-      PartRef r; r.halo = (what == "h"); r.rank = int(k); r.name = "p" + stringify(k);
-      if(r.halo) node->add_halo(r.rank, std::move(part));
-      else node->add_mesh_part(r.name, std::move(part));
+      std::string what;
+      Index nchild = 0;
+      std::unique_ptr<PartType> part = read_part(c, what, nchild);
+      PartRef r; r.halo = (what == "h"); r.rank = int(k); r.name = "p" + stringify(k); r.nchild = nchild;
+      if(r.halo)
+      {
+        if(nchild != 0) { o << "BAD-OP"; return; }
+        node->add_halo(r.rank, std::move(part));
+      }
+      else
+      {
+        // mesh parts are attached to the mesh-node TREE; their child parts hang below the part's node
+        auto* pnode = node->add_mesh_part(r.name, std::move(part));
+        for(Index j(0); j < nchild; ++j)
+        {
+          std::string w2; Index n2 = 0;
+          std::unique_ptr<PartType> child = read_part(c, w2, n2);
+          if(n2 != 0) { o << "BAD-OP"; return; }
+          pnode->add_mesh_part("c" + stringify(j), std::move(child));
+        }
+      }
       refs.push_back(r);
     }
     for(Index l(0); l < depth; ++l)
